@@ -14,9 +14,21 @@
 (* verdict of the model; the harness instantiates every shape as a         *)
 (* program at growing depth and runs the real binary (debug and release)   *)
 (* - that native run is the verdict on the implementation.                 *)
+(*                                                                         *)
+(* Since the repair 57c830a the parser bounds the depth of the TREE it      *)
+(* builds (MAX_NESTING_DEPTH, counting operator and postfix chains too).   *)
+(* A cycle all of whose edges are driven by the depth of the TEXT / TREE   *)
+(* is therefore bounded by that limit times the largest frame; cycles      *)
+(* driven by run-time recursion need the probe, cycles driven by the depth *)
+(* of DATA built at run time have neither.  ParserLimit = FALSE is the     *)
+(* as-found state.                                                         *)
 (***************************************************************************)
 EXTENDS Integers, Sequences, FiniteSets, TLC, Json
+CONSTANT ParserLimit
 Guarded == {"eval_expr"}
+\* shapes whose depth is the depth of the program text / syntax tree
+TextShapes == {"paren", "bracket", "unary_not", "unary_minus", "binary_right", "binary_left", "call_args", "index_chain", "member_chain",
+               "nested_block", "nested_if", "nested_loop", "nested_def", "else_chain"}
 \* [from, to, shape]
 Edges == {
   \* parser (recursive descent): nesting in the text
@@ -48,5 +60,6 @@ Spec == Init /\ [][Extend]_vars
 HasGuard == \E j \in 1..Len(path) : path[j] \in Guarded
 \* canonical: a cycle is reported from its least kind only (one rotation)
 Canonical == \A j \in 2..Len(path) : path[1] # path[j]
-Emit == closed => PrintT(ToJson([tag |-> "CYCLE", kinds |-> path, shapes |-> shapes, guarded |-> HasGuard]))
+TextBounded == ParserLimit /\ \A j \in 1..Len(shapes) : shapes[j] \in TextShapes
+Emit == closed => PrintT(ToJson([tag |-> "CYCLE", kinds |-> path, shapes |-> shapes, guarded |-> HasGuard, bounded |-> TextBounded]))
 =============================================================================
